@@ -9,7 +9,7 @@ Q5 package sweep: every ordering call in src/gambit is classified (armed / exemp
 import ast
 
 from ..astutil import (u, atoms, guard_map, path_atoms, stmts_in, calls_in, callee, callee_attr, reaching_def, def_value,
-                       PARAM, AMBIGUOUS, get_arg, get_kw, is_none, is_const, walk_ordered)
+                       PARAM, AMBIGUOUS, get_arg, get_kw, is_none, is_const, walk_ordered, block_path)
 from ..report import Undecided
 from . import c03
 
@@ -24,6 +24,26 @@ EXEMPT = {
     ('gambit.db.models.Taxon._print_tree', 'sorted'): 'debug printing only; Python sorted() is stable',
 }
 ARMED = {('gambit.query.get_result_item', 'np.argsort')}
+# exemptions that rest on a property of the operand: (reason, predicate(model, expression the sorted value was built from))
+def _built_from_a_set(m, e):
+    """np.fromiter(self.X, ...) / np.array(list(self.X)) where X is an attribute the accumulator initialises with set()."""
+    ci = m.classes.get('gambit.sigs.calc.SetAccumulator')
+    init = ci.methods.get('__init__') if ci else None
+    sets = set()
+    for s in (stmts_in(init.node.body) if init else []):
+        if isinstance(s, ast.Assign) and isinstance(s.value, ast.Call) and u(s.value.func) == 'set' and not s.value.args:
+            sets |= {u(t) for t in s.targets if isinstance(t, ast.Attribute) and u(t.value) == 'self'}
+    if not (isinstance(e, ast.Call) and u(e.func) in ('np.fromiter', 'numpy.fromiter', 'np.array', 'numpy.array', 'list') and e.args):
+        return False
+    a = e.args[0]
+    if isinstance(a, ast.Call) and u(a.func) == 'list' and len(a.args) == 1:
+        a = a.args[0]
+    return u(a) in sets
+
+
+PREMISE = {
+    ('gambit.sigs.calc.SetAccumulator.signature', '.sort'): ('the array is built from the elements of a set (distinct values: every sort algorithm returns the same array)', _built_from_a_set),
+}
 
 
 def ordering_is_stable(call, dists):
@@ -65,12 +85,73 @@ def ordering_is_stable(call, dists):
     return None, u(call)
 
 
+def _appends(stmts, acc, tests=()):
+    """(append call, enclosing tests, statement) for every `acc.append(x)` statement in a loop body; other control flow -> Undecided."""
+    out = []
+    for s in stmts:
+        if isinstance(s, ast.Expr) and isinstance(s.value, ast.Call) and isinstance(s.value.func, ast.Attribute) and u(s.value.func.value) == acc:
+            if s.value.func.attr != 'append' or len(s.value.args) != 1 or s.value.keywords:
+                raise Undecided(f'get_result_item: the list {acc} is modified by something other than append(x): {u(s)[:80]}')
+            out.append((s.value, tuple(tests), s))
+        elif isinstance(s, ast.If):
+            out += _appends(s.body, acc, tuple(tests) + ((s.test, True),))
+            out += _appends(s.orelse, acc, tuple(tests) + ((s.test, False),))
+        elif isinstance(s, (ast.Assign, ast.AnnAssign)) and all(isinstance(t, ast.Name) for t in (s.targets if isinstance(s, ast.Assign) else [s.target])):
+            continue
+        elif isinstance(s, (ast.Pass,)) or (isinstance(s, ast.Expr) and isinstance(s.value, ast.Constant)):
+            continue
+        else:
+            raise Undecided(f'get_result_item: statement in the loop that builds {acc} is outside the vocabulary: {u(s)[:80]}')
+    return out
+
+
+def list_form(ctx, fi, res, cg, st):
+    """Normal form of the closest-genomes list, whether it is written as a comprehension or as `acc = []; for v in it: acc.append(e)`:
+    dict(elt, at (statement at which elt is evaluated), var, iter, iter_at, filters [text], node)."""
+    rep = ctx.rep
+    fn = fi.node
+    trail = []
+    cv, at = res.top(cg, st, trail=trail)
+    if isinstance(cv, ast.ListComp):
+        changed = [n for n in trail if n in res.mutated]
+        rep.require(not changed, f'get_result_item: the list {changed[0] if changed else ""} is modified in place after it was built (reverse / sort / item assignment ...): the rule cannot tell what order it ends up in')
+        rep.require(len(cv.generators) == 1 and isinstance(cv.generators[0].target, ast.Name), f'get_result_item: closest_genomes comprehension with several loops / a structured target: {u(cv)[:80]}')
+        gen = cv.generators[0]
+        return dict(elt=cv.elt, at=at, var=gen.target.id, iter=gen.iter, iter_at=at, filters=[u(i) for i in gen.ifs], node=cv)
+    empty = (isinstance(cv, ast.List) and not cv.elts) or (isinstance(cv, ast.Call) and u(cv.func) == 'list' and not cv.args and not cv.keywords)
+    rep.require(empty and isinstance(at, ast.Assign) and len(at.targets) == 1 and isinstance(at.targets[0], ast.Name),
+                f'get_result_item: closest_genomes is neither a list comprehension nor a list filled by an append loop: {u(cv)[:80]}')
+    acc = at.targets[0].id
+    path = block_path(fn, at)
+    block, idx, _ = path[-1]
+    loops = []
+    for s in block[idx + 1:]:
+        uses = [n for n in ast.walk(s) if isinstance(n, ast.Name) and n.id == acc]
+        if not uses:
+            continue
+        if isinstance(s, ast.For) and not any(x is cg for x in ast.walk(s)):
+            loops.append(s)
+        elif isinstance(s, ast.Assign) and isinstance(s.value, ast.Name) and s.value.id == acc and all(isinstance(t, ast.Name) for t in s.targets):
+            continue            # an alias: followed by the copy propagation
+        elif any(x is cg for x in ast.walk(s)):
+            continue            # the use in the result item
+        else:
+            raise Undecided(f'get_result_item: the list {acc} is used in a way the rule does not model: {u(s)[:80]}')
+    rep.require(len(loops) == 1, f'get_result_item: expected exactly one loop filling the list {acc}, found {len(loops)}')
+    loop = loops[0]
+    rep.require(isinstance(loop.target, ast.Name) and not loop.orelse, f'get_result_item: the loop filling {acc} has a structured target / an else clause')
+    apps = _appends(loop.body, acc)
+    rep.require(len(apps) == 1, f'get_result_item: expected exactly one {acc}.append(...) in the loop, found {len(apps)}')
+    call, tests, stmt = apps[0]
+    return dict(elt=call.args[0], at=stmt, var=loop.target.id, iter=loop.iter, iter_at=loop, filters=[('' if pol else 'not ') + u(t) for (t, pol) in tests], node=loop)
+
+
 def check(ctx):
     rep, m = ctx.rep, ctx.model
     rep.rule('Q1', 'closest_genomes order comes from a stable ascending ordering of the distance row')
     rep.rule('Q2', 'closest match = np.argmin (first minimum), same-index pairing (shared with C03-D3)')
-    rep.rule('Q3', 'each listed match uses one index for genome and distance; its taxon defaults to matching_taxon(genome.taxon, distance)')
-    rep.rule('Q4', 'truncation is the prefix [:report_closest] applied after ordering')
+    rep.rule('Q3', 'each listed match uses one index for genome and distance; its taxon is matching_taxon(genome.taxon, distance) of that very pair (by default or explicitly)')
+    rep.rule('Q4', 'truncation is the prefix [:report_closest] applied after ordering; one entry per ordered index (comprehension or append loop), none filtered')
     rep.rule('Q5', 'every ordering call in src/gambit is classified armed/exempt')
     rep.trusted += ["np.argsort(kind='stable'|'mergesort') is a stable sort on every platform; the default kind is not", 'np.argmin returns the first minimum',
                     'slicing a longer index array to [:N] yields min(N, len) entries']
@@ -82,64 +163,59 @@ def check(ctx):
     rep.require(len(items) == 1, 'get_result_item: expected one QueryResultItem construction')
     cg = get_kw(items[0], 'closest_genomes')
     rep.require(cg is not None, 'get_result_item: closest_genomes not passed')
-    st = next(s for s in fn.body if any(x is items[0] for x in ast.walk(s)))
-    cv = cg
-    if isinstance(cg, ast.Name):
-        d = reaching_def(fn, cg.id, st)
-        cv = def_value(d) if d not in (None, PARAM, AMBIGUOUS) else None
-    rep.require(isinstance(cv, ast.ListComp) and len(cv.generators) == 1 and isinstance(cv.generators[0].target, ast.Name),
-                f'get_result_item: closest_genomes is not a list comprehension: {u(cv)}')
-    gen = cv.generators[0]
-    iv = gen.target.id
-    rep.add('Q4', fi.site(cv), 'no entry is filtered out of the list', not gen.ifs, expected='no filter', found=[u(i) for i in gen.ifs], stmt='list filter')
-    it = gen.iter
+    st = c03.stmt_of(fn, items[0])
+    res = c03.Resolver(fn)
+    lf = list_form(ctx, fi, res, cg, st)
+    iv = lf['var']
+    rep.add('Q4', fi.site(lf['node']), 'no entry is filtered out of the list', not lf['filters'], expected='no filter', found=lf['filters'], stmt='list filter')
+    it, it_at = res.top(lf['iter'], lf['iter_at'])
     # Q4: prefix slice
     sliced = isinstance(it, ast.Subscript) and isinstance(it.slice, ast.Slice)
     if sliced:
         sl = it.slice
-        okp = sl.lower is None and sl.step is None and u(sl.upper) == f'{params}.report_closest'
-        rep.add('Q4', fi.site(cv), 'the list is the first report_closest entries of the ordered indices', okp, expected=f'[:{params}.report_closest]', found=u(it.slice), stmt='prefix slice')
-        inner = it.value
+        up = res.text(sl.upper, it_at) if sl.upper is not None else None
+        okp = sl.lower is None and sl.step is None and up == f'{params}.report_closest'
+        rep.add('Q4', fi.site(lf['node']), 'the list is the first report_closest entries of the ordered indices', okp, expected=f'[:{params}.report_closest]', found=u(it.slice), stmt='prefix slice')
+        inner, inner_at = res.top(it.value, it_at)
     else:
-        rep.add('Q4', fi.site(cv), 'the list is truncated to report_closest entries', False, expected=f'[:{params}.report_closest]', found=u(it), stmt='prefix slice')
-        inner = it
-    if isinstance(inner, ast.Name):
-        d = reaching_def(fn, inner.id, st)
-        inner = def_value(d) if d not in (None, PARAM, AMBIGUOUS) else inner
+        rep.add('Q4', fi.site(lf['node']), 'the list is truncated to report_closest entries', False, expected=f'[:{params}.report_closest]', found=u(it), stmt='prefix slice')
+        inner, inner_at = it, it_at
     rep.require(isinstance(inner, ast.Call), f'get_result_item: ordering expression is not a call: {u(inner)}')
     rep.call_sites += 1
     # sorting must see the whole row (slice applied after ordering)
-    sub_in_args = [a for a in inner.args if isinstance(a, ast.Subscript) and isinstance(a.slice, ast.Slice)]
+    inner_r = c03.strip_copies(res.deep(inner, inner_at))
+    rep.require(not res.unknown, f'get_result_item: locals whose value cannot be traced to one expression feed the ordering: {sorted(set(res.unknown))}')
+    sub_in_args = [a for a in inner_r.args if isinstance(a, ast.Subscript) and isinstance(a.slice, ast.Slice)]
     rep.add('Q4', fi.site(inner), 'ordering is applied to the whole distance row (truncation comes after)', not sub_in_args, expected='whole row', found=[u(a) for a in sub_in_args], stmt='order before slice')
-    verdict, desc = ordering_is_stable(inner, dists)
+    verdict, desc = ordering_is_stable(inner_r, dists)
     if verdict is None:
         raise Undecided(f'get_result_item: ordering construct outside the vocabulary: {desc}')
     rep.add('Q1', fi.site(inner), 'closest_genomes is ordered by a stable ascending sort of the distance row (ties in reference order, identical on every machine)', verdict,
             expected="np.argsort(dists, kind='stable') | lexsort | sorted(range(n), key=...)", found=f'{u(inner)}: {desc}', stmt=inner)
-    # Q3
-    e = cv.elt
+    # Q3: the element, with every local replaced by its value (a genome / a distance bound to a local first is the same genome / distance)
+    e = c03.strip_copies(res.deep(lf['elt'], lf['at']))
+    rep.require(not res.unknown, f'get_result_item: locals whose value cannot be traced to one expression feed the list entries: {sorted(set(res.unknown))}')
     okq = isinstance(e, ast.Call) and m.resolve_call(fi, e) == 'gambit.classify.GenomeMatch'
     rep.require(okq, f'get_result_item: list element is not a GenomeMatch: {u(e)}')
     g = get_arg(e, 0, 'genome')
     d_ = get_arg(e, 1, 'distance')
-    rep.add('Q3', fi.site(e), 'each entry pairs genome and distance through the one ordered index', u(g) == f'{db}.genomes[{iv}]' and u(d_) == f'{dists}[{iv}]', expected=f'GenomeMatch({db}.genomes[{iv}], {dists}[{iv}])',
+    rep.add('Q3', fi.site(lf['elt']), 'each entry pairs genome and distance through the one ordered index', u(g) == f'{db}.genomes[{iv}]' and u(d_) == f'{dists}[{iv}]', expected=f'GenomeMatch({db}.genomes[{iv}], {dists}[{iv}])',
             found=u(e), stmt='entry pairing')
     mt = get_arg(e, 2, 'matched_taxon')
-    rep.add('Q3', fi.site(e), "each entry's taxon is the default: what its own distance alone would assign", mt is None, expected='matched_taxon left to its default', found=u(mt) if mt not in (None, Ellipsis) else mt,
-            stmt='entry taxon')
+    explicit = isinstance(mt, ast.Call) and m.resolve_call(fi, mt) == 'gambit.classify.matching_taxon' and [u(a) for a in mt.args] == [f'{u(g)}.taxon', u(d_)] and not mt.keywords
+    rep.add('Q3', fi.site(lf['elt']), "each entry's taxon is what its own distance alone would assign: the default, or matching_taxon(its genome's taxon, its distance) passed explicitly", mt is None or explicit,
+            expected=f'matched_taxon left to its default, or matching_taxon({u(g)}.taxon, {u(d_)})', found=u(mt) if mt not in (None, Ellipsis) else mt, stmt='entry taxon')
     # the genomes classified and the genomes listed are the same sequence
     cls_calls = [c for c in calls_in(fn) if m.resolve_call(fi, c) == 'gambit.classify.classify']
-    rep.add('Q3', fi.site(cls_calls[0] if cls_calls else e), 'classification and the list index the same genome sequence and the same distance row',
-            len(cls_calls) == 1 and [u(a) for a in cls_calls[0].args[:2]] == [f'{db}.genomes', dists], expected=f'classify({db}.genomes, {dists})', found=[u(c)[:60] for c in cls_calls], stmt='shared operands')
+    cls_args = [u(c03.strip_copies(res.deep(a, c03.stmt_of(fn, cls_calls[0])))) for a in cls_calls[0].args[:2]] if len(cls_calls) == 1 else None
+    rep.add('Q3', fi.site(cls_calls[0] if cls_calls else lf['elt']), 'classification and the list index the same genome sequence and the same distance row',
+            cls_args == [f'{db}.genomes', dists], expected=f'classify({db}.genomes, {dists})', found=cls_args if cls_args is not None else [u(c)[:60] for c in cls_calls], stmt='shared operands')
     # Q2 (shared with C03)
     c03.classify_head(ctx, rule='Q2')
     gc = m.cls('gambit.classify.GenomeMatch')
-    f3 = gc.methods.get('_matched_taxon_default')
-    body = [s for s in f3.node.body if not (isinstance(s, ast.Expr) and isinstance(s.value, ast.Constant))] if f3 else []
-    okg = f3 is not None and len(body) == 1 and isinstance(body[0], ast.Return) and isinstance(body[0].value, ast.Call) \
-        and m.resolve_call(f3, body[0].value) == 'gambit.classify.matching_taxon' and [u(a) for a in body[0].value.args] == ['self.genome.taxon', 'self.distance']
+    okg, f3, found = c03.matched_taxon_default_ok(m)
     rep.add('Q3', f3.site() if f3 else gc.site(), 'default matched taxon = matching_taxon(own genome taxon, own distance)', okg, expected='matching_taxon(self.genome.taxon, self.distance)',
-            found=[u(s) for s in body], stmt='matched_taxon default')
+            found=found, stmt='matched_taxon default')
     qp = m.cls('gambit.query.QueryParams')
     dflt = qp.class_attrs.get('report_closest')
     dv = get_kw(dflt, 'default') if isinstance(dflt, ast.Call) else None
@@ -166,6 +242,15 @@ def sweep(ctx, armed_call=None):
             continue
         txt = u(call.func)
         key = (fi.qualname, txt if not (isinstance(call.func, ast.Attribute) and isinstance(call.func.value, ast.Name) and call.func.value.id not in ('np', 'numpy')) else f'.{name}')
+        if txt in ('np.sort', 'numpy.sort') and call.args and get_kw(call, 'order') is None:
+            key = (fi.qualname, '.sort')       # a value sort, like x.sort(): np.sort(x) returns the sorted copy of x
+        if key in PREMISE:
+            # the exemption rests on a fact about the sorted operand: it must still be visible
+            operand = call.args[0] if txt in ('np.sort', 'numpy.sort') else call.func.value
+            src, _ = c03.Resolver(fi.node).top(operand, c03.stmt_of(fi.node, call))
+            what, holds = PREMISE[key]
+            if not holds(m, src):
+                raise Undecided(f'ordering call {txt} in {fi.qualname} ({fi.file}:{call.lineno}) is exempt only because {what}; its operand is now {u(src)[:60]}')
         seen.append(key)
         if key in ARMED or call is armed_call:
             rep.add('Q5', fi.site(call), f'ordering call {txt} is armed (its order is observable in results; decided by Q1)', True, found=txt, stmt=call)
@@ -183,6 +268,20 @@ from ..variants import V  # noqa: E402
 
 _Q = 'src/gambit/query.py'
 _C = 'src/gambit/classify.py'
+_K = 'src/gambit/sigs/calc.py'
+_IMP = (_Q, "from gambit.classify import classify, ClassifierResult, GenomeMatch", "from gambit.classify import classify, matching_taxon, ClassifierResult, GenomeMatch")
+_GRI = ("\tclsresult = classify(db.genomes, dists, strict=params.classify_strict)\n"
+        "\tclosest = [GenomeMatch(db.genomes[i], dists[i]) for i in np.argsort(dists, kind='stable')[:params.report_closest]]\n")
+_LIST = "\tclosest = [GenomeMatch(db.genomes[i], dists[i]) for i in np.argsort(dists, kind='stable')[:params.report_closest]]\n"
+_ALIAS = ("\tgenomes = db.genomes\n\tclsresult = classify(genomes, dists, strict=params.classify_strict)\n"
+          "\tby_distance = np.argsort(dists, kind='stable')\n\tclosest = [GenomeMatch(genomes[i], dists[i]) for i in by_distance[:params.report_closest]]\n")
+_LOOP = "\tclosest = []\n\tfor i in np.argsort(dists, kind='stable')[:params.report_closest]:\n\t\tclosest.append(GenomeMatch(db.genomes[i], dists[i]))\n"
+_LOOP_MT = ("\torder = np.argsort(dists, kind='stable')\n\tmatches = []\n\tn = params.report_closest\n\tfor i in order[:n]:\n\t\tgenome = db.genomes[i]\n\t\td = dists[i]\n"
+            "\t\tmatches.append(GenomeMatch(genome=genome, distance=d, matched_taxon=matching_taxon(genome.taxon, d)))\n\tclosest = matches\n")
+_CM_OLD = ("\tclosest = np.argmin(dists)\n\tclosest_match = GenomeMatch(\n\t\tgenome=ref_genomes[closest],\n\t\tdistance=dists[closest],\n"
+           "\t\tmatched_taxon=matching_taxon(ref_genomes[closest].taxon, dists[closest]),\n\t)\n")
+_CM_LOCALS = ("\tclosest = np.argmin(dists)\n\tclosest_genome = ref_genomes[closest]\n\tclosest_dist = dists[closest]\n\tclosest_match = GenomeMatch(\n\t\tgenome=closest_genome,\n"
+              "\t\tdistance=closest_dist,\n\t\tmatched_taxon=matching_taxon(closest_genome.taxon, closest_dist),\n\t)\n")
 VARIANTS = [
     V("kind='stable' dropped (the repaired defect)", 'B', _Q, "np.argsort(dists, kind='stable')", "np.argsort(dists)", 'Q1'),
     V("kind='quicksort'", 'B', _Q, "np.argsort(dists, kind='stable')", "np.argsort(dists, kind='quicksort')", 'Q1'),
@@ -198,4 +297,22 @@ VARIANTS = [
     V('E: sorted(range(n), key=...)', 'E', _Q, "np.argsort(dists, kind='stable')", "sorted(range(len(dists)), key=dists.__getitem__)"),
     V('E: order named by a local', 'E', _Q, "\tclosest = [GenomeMatch(db.genomes[i], dists[i]) for i in np.argsort(dists, kind='stable')[:params.report_closest]]",
       "\torder = np.argsort(dists, kind='stable')\n\tclosest = [GenomeMatch(db.genomes[i], dists[i]) for i in order[:params.report_closest]]"),
+    # --- newly accepted forms and their broken twins
+    V('E: genome sequence and ordered indices bound to locals', 'E', _Q, _GRI, _ALIAS),
+    V('B: list indexes a reversed copy of the genome sequence bound to a local', 'B', _Q, _GRI, _ALIAS.replace("\tgenomes = db.genomes\n", "\tgenomes = db.genomes[::-1]\n"), 'Q3'),
+    V('B: classification and list use different genome sequences through locals', 'B', _Q, _GRI,
+      _ALIAS.replace("classify(genomes, dists,", "classify(db.genomes, dists,").replace("\tgenomes = db.genomes\n", "\tgenomes = list(reversed(db.genomes))\n"), 'Q3'),
+    V('B: ordered indices bound to a local from an unstable sort', 'B', _Q, _GRI, _ALIAS.replace("np.argsort(dists, kind='stable')", "np.argsort(dists)"), 'Q1'),
+    V('E: list filled by an append loop', 'E', _Q, _LIST, _LOOP),
+    V('B: append loop that skips entries', 'B', _Q, _LIST, _LOOP.replace("\t\tclosest.append(", "\t\tif dists[i] < 1:\n\t\t\tclosest.append(").replace("dists[i]))\n", "dists[i]))\n", 1), 'Q4'),
+    V('B: append loop pairing each genome with the distance of the first index', 'B', _Q, _LIST, _LOOP.replace("GenomeMatch(db.genomes[i], dists[i])", "GenomeMatch(db.genomes[i], dists[0])"), 'Q3'),
+    V('B: append loop over an unsliced ordering', 'B', _Q, _LIST, _LOOP.replace("[:params.report_closest]", ""), 'Q4'),
+    V('E: append loop with genome / distance locals and the matched taxon passed explicitly', 'E', _Q, _LIST, _LOOP_MT, also=(_IMP,)),
+    V('B: explicit matched taxon computed from the distance of the closest match', 'B', _Q, _LIST, _LOOP_MT.replace("matching_taxon(genome.taxon, d)", "matching_taxon(genome.taxon, clsresult.closest_match.distance)"), 'Q3', also=(_IMP,)),
+    V('B: distance local read one position off the ordered index', 'B', _Q, _LIST, _LOOP_MT.replace("d = dists[i]", "d = dists[i - 1]"), 'Q3', also=(_IMP,)),
+    V('B: list length local is one short', 'B', _Q, _LIST, _LOOP_MT.replace("n = params.report_closest\n", "n = params.report_closest - 1\n"), 'Q4', also=(_IMP,)),
+    V('E: SetAccumulator.signature through np.sort of the set elements', 'E', _K, "\t\tsig = np.fromiter(self.set, dtype=self._dtype)\n\t\tsig.sort()\n\t\treturn sig\n",
+      "\t\tunsorted = np.fromiter(self.set, dtype=self._dtype, count=len(self.set))\n\t\treturn np.sort(unsorted)\n"),
+    V('E: closest genome and distance of classify bound to locals first', 'E', _C, _CM_OLD, _CM_LOCALS),
+    V('B: closest distance local taken at a fixed index', 'B', _C, _CM_OLD, _CM_LOCALS.replace("closest_dist = dists[closest]", "closest_dist = dists[0]"), 'Q2'),
 ]
